@@ -12,7 +12,7 @@ git -C /repo worktree add -q -f --detach $WT HEAD 2>/dev/null || { echo "$name W
 cp /verif/known-findings.json $OUT/; ln -sfn /verif/checker $OUT/checker
 if [ "$P" = all ]; then props=$(python3 -c "import json;print(' '.join(c['property_id'] for c in json.load(open('/verif/MANIFEST.json'))['checks']))"); else props=$P; fi
 tot=0; rules=""
-o=$(/verif/checker/bin/verifchk -props "$(echo $props | tr ' ' ',')" -tier quick -verif $OUT -repo $WT 2>&1)
+o=$(${VERIFCHK:-/verif/checker/bin/verifchk} -props "$(echo $props | tr ' ' ',')" -tier quick -verif $OUT -repo $WT 2>&1)
 for p in $props; do
   n=$(echo "$o" | grep "^VIOLATION property=$p " | wc -l)
   if [ $n -gt 0 ]; then tot=$((tot+n)); rules="$rules $p:$(echo "$o" | grep "^VIOLATION property=$p " | grep -o "rule=[^ ]*" | sort -u | tr '\n' ',')"; echo "$o" | grep "^VIOLATION property=$p " | cut -c1-300 > $OUT/$p.viol; fi
